@@ -225,3 +225,212 @@ theorem shrinkLoop_HOK2 : ∀ (fuel : Nat) (m : Tree), Inv0 layer m →
 
 end Tree
 end Mast
+
+namespace Mast
+open T
+
+namespace T
+theorem mem_insL_of_mem {k v : Nat} {l : List Entry} {e : Entry} (he : e ∈ l) (hk : e.1 ≠ k) : e ∈ insL k v l := by
+  induction l with
+  | nil => cases he
+  | cons x l ih =>
+    obtain ⟨k', v'⟩ := x
+    simp only [List.mem_cons] at he
+    simp only [insL]
+    split
+    · rcases he with rfl | he
+      · simp
+      · exact List.mem_cons_of_mem _ (ih he)
+    · split
+      · next _ heq =>
+        rcases he with rfl | he
+        · exact absurd heq hk
+        · exact List.mem_cons_of_mem _ he
+      · rcases he with rfl | he
+        · simp
+        · simp [he]
+
+/-- the key set of `insL k v l` is the key set of `l` plus `k` -/
+theorem key_mem_insL {k v : Nat} {l : List Entry} (P : Nat → Prop) :
+    (∃ e ∈ insL k v l, P e.1) ↔ (P k ∨ ∃ e ∈ l, P e.1) := by
+  constructor
+  · rintro ⟨e, he, hp⟩
+    rcases mem_insL he with rfl | he
+    · exact Or.inl hp
+    · exact Or.inr ⟨e, he, hp⟩
+  · rintro (hp | ⟨e, he, hp⟩)
+    · exact ⟨(k, v), mem_insL_self k v l, hp⟩
+    · by_cases hk : e.1 = k
+      · exact ⟨(k, v), mem_insL_self k v l, hk ▸ hp⟩
+      · exact ⟨e, mem_insL_of_mem he hk, hp⟩
+end T
+
+namespace Tree
+variable (layer : Nat → Nat)
+
+theorem insert_HOK (m m' : Tree) (k v : Nat) (hi : Inv layer m) (hh : HOK m.bf layer m.height m.toList)
+    (hr : insert layer m k v = .ok m') : HOK m'.bf layer m'.height m'.toList := by
+  obtain ⟨tgt, h1, h2, h3⟩ := levels_spec layer m k
+  have hwf : WF layer (tgt + m.levels layer k) m.root := h1 ▸ hi.wf
+  have hsome := ins_isSome layer k v m.root (m.levels layer k) tgt hwf h2 h3
+  obtain ⟨r, hrr⟩ := Option.isSome_iff_exists.mp hsome
+  have hrl := toList_ins layer k v m.root (m.levels layer k) tgt r hwf hi.sorted h2 h3 hrr
+  have hrw : WF layer m.height r := h1 ▸ ins_WF layer k v m.root (m.levels layer k) tgt r hwf hi.sorted h2 h3 hrr
+  have hlk := lookup_eq layer m k hi
+  unfold insert at hr
+  cases hl : m.lookup layer k with
+  | some v' =>
+    simp only [hl] at hr
+    have hg : getL k m.toList = some v' := by rw [← hlk, hl]
+    have hkmem : ∃ e ∈ m.toList, e.1 = k := ⟨(k, v'), getL_some_mem hg, rfl⟩
+    by_cases hv : v' = v
+    · simp only [hv, if_true] at hr
+      injection hr with hr; subst hr; exact hh
+    · simp only [hv, if_false, hrr] at hr
+      injection hr with hr; subst hr
+      simp only [Tree.toList] at hh ⊢
+      rw [hrl]
+      have hlen := length_insL_present (k := k) (v := v) _ hi.sorted hg
+      simp only [Tree.toList] at hlen hkmem
+      unfold HOK at hh ⊢
+      rw [hlen]
+      obtain ⟨a, b⟩ := hh
+      refine ⟨?_, ?_⟩
+      · rcases a with a | ⟨a1, e, he, hle⟩
+        · exact Or.inl a
+        · right; refine ⟨a1, ?_⟩
+          exact (key_mem_insL (fun x => m.height ≤ layer x)).mpr (Or.inr ⟨e, he, hle⟩)
+      · rcases b with b | b
+        · exact Or.inl b
+        · right
+          intro e he
+          rcases mem_insL he with rfl | he
+          · obtain ⟨e', he', hk'⟩ := hkmem
+            have := b e' he'; rw [hk'] at this; exact this
+          · exact b e he
+  | none =>
+    simp only [hl, hrr] at hr
+    injection hr with hr; subst hr
+    have hg : getL k m.toList = none := by rw [← hlk, hl]
+    have habs := getL_none_iff.mp hg
+    have hi0 : Inv0 layer { m with root := r, rootP := false, dirty := true } :=
+      ⟨hrw, by simp only; rw [hrl]; exact sorted_insL k v _ hi.sorted, hi.bf2, hi.ga, hi.sb⟩
+    obtain ⟨g1, g2, g3, g4, _⟩ := growLoop_spec layer (m.size + 1) _ hi0
+    have hlen : (insL k v m.root.toList).length = m.size + 1 := by
+      have := length_insL_absent k v m.root.toList habs
+      have := hi.size; omega
+    simp only [Tree.toList]
+    rw [g2, g4]
+    simp only
+    rw [hrl]
+    unfold HOK
+    rw [hlen]
+    constructor
+    · have := growLoop_HOK1 layer (m.size + 1) (m.size + 1) _ hi0 (by simp) (by
+        simp only
+        rcases hh.1 with a | ⟨a1, e, he, hle⟩
+        · exact Or.inl a
+        · right
+          simp only [Tree.toList] at a1 he
+          have := hi.size
+          refine ⟨by omega, ?_⟩
+          rw [hrl]
+          exact (key_mem_insL (fun x => m.height ≤ layer x)).mpr (Or.inr ⟨e, he, hle⟩))
+      rw [g2, g4] at this
+      simp only at this
+      rw [hrl] at this
+      exact this
+    · have hex := growLoop_exit layer (m.size + 1) _ hi0 (by
+        simp only
+        have := two_pow_gt (m.height + (m.size + 1) + 1)
+        omega)
+      rw [g3] at hex
+      simp only at hex
+      rw [g1.ga, g4] at hex
+      simp only at hex
+      by_cases hsz : m.size + 1 ≤ m.bf ^ ((growLoop layer (m.size + 1) { m with root := r, rootP := false, dirty := true }).height + 1)
+      · exact Or.inl hsz
+      · right
+        have hge : m.size ≥ m.bf ^ ((growLoop layer (m.size + 1) { m with root := r, rootP := false, dirty := true }).height + 1) := by omega
+        have hng : ¬ canGrow layer (growLoop layer (m.size + 1) { m with root := r, rootP := false, dirty := true }).height
+            (growLoop layer (m.size + 1) { m with root := r, rootP := false, dirty := true }).root = true :=
+          fun hc => hex ⟨hge, hc⟩
+        rw [canGrow_iff layer _ _ g1.wf] at hng
+        intro e he
+        apply Decidable.byContradiction
+        intro hgt
+        apply hng
+        refine ⟨e, ?_, by omega⟩
+        rw [g2]; simp only; rw [hrl]; exact he
+
+theorem delete_HOK (m m' : Tree) (k v : Nat) (hi : Inv layer m) (hh : HOK m.bf layer m.height m.toList)
+    (hr : delete layer m k v = .ok m') : HOK m'.bf layer m'.height m'.toList := by
+  obtain ⟨tgt, h1, h2, h3⟩ := levels_spec layer m k
+  have hwf : WF layer (tgt + m.levels layer k) m.root := h1 ▸ hi.wf
+  have hlk := lookup_eq layer m k hi
+  unfold delete at hr
+  cases hl : m.lookup layer k with
+  | none => simp [hl] at hr
+  | some v' =>
+    simp only [hl] at hr
+    by_cases hv : v' = v
+    · subst hv
+      simp only [ne_eq, not_true_eq_false, if_false] at hr
+      cases hd : del k (m.levels layer k) m.root with
+      | none => simp [hd] at hr
+      | some r =>
+        simp only [hd] at hr
+        injection hr with hr; subst hr
+        have hrl := toList_del layer k m.root (m.levels layer k) tgt r hwf hi.sorted h2 h3 hd
+        have hrw : WF layer m.height r := h1 ▸ del_WF layer k m.root (m.levels layer k) tgt r hwf hi.sorted h2 h3 hd
+        have hpres : getL k m.toList = some v' := by rw [← hlk, hl]
+        have hi0 : Inv0 layer { m with root := r, rootP := false, dirty := true, size := m.size - 1 } :=
+          ⟨hrw, by simp only; rw [hrl]; exact sorted_delL k _ hi.sorted, hi.bf2, hi.ga, hi.sb⟩
+        obtain ⟨g1, g2, g3, g4⟩ := shrinkLoop_spec layer (m.height + 1) _ hi0
+        have hlen : (delL k m.root.toList).length = m.size - 1 := by
+          have := length_delL_present _ hi.sorted hpres
+          have := hi.size; simp only [Tree.toList] at *; omega
+        simp only [Tree.toList]
+        rw [g2, g4]
+        simp only
+        rw [hrl]
+        unfold HOK
+        rw [hlen]
+        constructor
+        · have hex := shrinkLoop_exit (m.height + 1) { m with root := r, rootP := false, dirty := true, size := m.size - 1 } (by simp)
+          rw [g3, g1.sb, g4] at hex
+          simp only at hex
+          by_cases h0 : (shrinkLoop (m.height + 1) { m with root := r, rootP := false, dirty := true, size := m.size - 1 }).height = 0
+          · exact Or.inl h0
+          · right
+            have hpos : (shrinkLoop (m.height + 1) { m with root := r, rootP := false, dirty := true, size := m.size - 1 }).height > 0 := by omega
+            have hnot : ¬ (m.size - 1 ≤ m.bf ^ (shrinkLoop (m.height + 1) { m with root := r, rootP := false, dirty := true, size := m.size - 1 }).height ∨
+                topEntryless (shrinkLoop (m.height + 1) { m with root := r, rootP := false, dirty := true, size := m.size - 1 }).root = true) :=
+              fun hc => hex ⟨hpos, hc⟩
+            refine ⟨by omega, ?_⟩
+            have hne : ¬ topEntryless (shrinkLoop (m.height + 1) { m with root := r, rootP := false, dirty := true, size := m.size - 1 }).root = true :=
+              fun hc => hnot (Or.inr hc)
+            rw [topEntryless_iff layer _ _ g1.wf] at hne
+            apply Decidable.byContradiction
+            intro hno
+            apply hne
+            intro e he
+            apply Decidable.byContradiction
+            intro hge
+            apply hno
+            refine ⟨e, ?_, by omega⟩
+            rw [g2] at he; simp only at he; rw [hrl] at he; exact he
+        · have := shrinkLoop_HOK2 layer (m.height + 1) _ hi0 (by
+            simp only
+            rcases hh.2 with b | b
+            · left; simp only [Tree.toList] at b; have := hi.size; omega
+            · right; intro e he; rw [hrl] at he; exact b e (mem_delL he))
+          rw [g3, g4, g2] at this
+          simp only at this
+          rw [hrl] at this
+          exact this
+    · simp only [ne_eq, hv, not_false_eq_true, if_true] at hr
+      cases hr
+
+end Tree
+end Mast
